@@ -1331,6 +1331,18 @@ def f_big_fills(ids, rng, n=2):
     return out
 
 
+def f_huge_fill(ids, rng, ifaces=("p8", "p16", "spi")):
+    """clear() of a 65535 x 65535 panel through a real Display: 4 294 836 225 pixels, more than 2^31 - the count the
+    transport is given times the words per pixel does not fit a u32 (defect 5 through the public API)"""
+    out = []
+    for iface in ifaces:
+        for col in (0x0808, 0xFFFF, 0x1234):        # both bytes equal (strobe-only path on the 8-bit bus) / different
+            rot, mir = rng.choice(ORIENTS)
+            c = cfg("tiny565_65535x65535", rot=rot, mir=mir, iface=iface, buf=rng.choice([2, 5, 64]), rst=rng.random() < 0.5)
+            out.append(scn(ids, c, [INIT, {"name": "clear", "c": col}], tag="huge-fill", budget=3000))
+    return out
+
+
 def f_xport_faults(ids, rng, ifaces=("p8", "p16"), n=200):
     """interface-level calls on a real transport with one failing low-level operation somewhere inside:
     what reached the bus before it must be a prefix of what was to be sent, and nothing may follow"""
